@@ -47,7 +47,40 @@ def pad_python(line, width):
     return line
 
 
-wrap_line = partial(wrap_line_base, pad_func=pad_python)
+def lex_python(line):
+    """Split *line* at blanks the way ``shlex.split(line, posix=False)``
+    does, except that inside a string literal a backslash escapes the
+    character after it, so that ``'can\\'t "x"'`` stays one token.
+    """
+    tokens = []
+    token = ""
+    quote = None
+    chars = iter(line)
+    for char in chars:
+        if quote is not None:
+            token += char
+            if char == "\\":
+                token += next(chars, "")
+            elif char == quote:
+                tokens.append(token)
+                token = ""
+                quote = None
+        elif char in " \t\r\n":
+            if token:
+                tokens.append(token)
+                token = ""
+        else:
+            if not token and char in "'\"":
+                quote = char
+            token += char
+    if quote is not None:
+        raise ValueError("No closing quotation")
+    if token:
+        tokens.append(token)
+    return tokens
+
+
+wrap_line = partial(wrap_line_base, pad_func=pad_python, lex_func=lex_python)
 
 
 class StepperInterface(ABC):
